@@ -3,51 +3,65 @@
 -/
 import RxModel.Model.Compile
 import RxModel.Spec.OpLang
+import RxModel.Proofs.MiscLemmas
 namespace Rx.C16
 open Rx
 
 /-- the bit stored by the constructor is exactly "is_match on the empty string" -/
 theorem new_nullable (env : Env) (p fs : List Nat) (xsd opt : Bool) (r : Regex)
     (h : Regex.new env p fs xsd opt = .ok r) : r.prog.isMatch env.lower [] = .ok r.nullable := by
-  sorry
+  unfold Regex.new at h
+  repeat' (split at h)
+  all_goals first
+    | (simp at h; done)
+    | (rename_i hn; simp only [Out.ok.injEq] at h; subst h; exact hn)
 
 theorem replace_nullable (r : Regex) (lower : Nat → Nat) (input repl : List Nat) (h : r.nullable = true) :
     r.replaceAll lower input repl = .err .matchesEmptyString := by
-  sorry
+  simp [Regex.replaceAll, h]
 
 theorem analyze_nullable (r : Regex) (lower : Nat → Nat) (input : List Nat) (limit : Nat) (h : r.nullable = true) :
     r.analyze lower input limit = .err .matchesEmptyString := by
-  sorry
+  simp [Regex.analyze, h]
 
 theorem tokenize_nullable (r : Regex) (lower : Nat → Nat) (input : List Nat) (limit : Nat)
     (h : r.nullable = true) (hne : input ≠ []) :
     r.tokenize lower input limit = .err .matchesEmptyString := by
-  sorry
+  simp [Regex.tokenize, h, hne]
 
 /-- tokenize on the empty input yields no tokens for every regex -/
 theorem tokenize_empty (r : Regex) (lower : Nat → Nat) (limit : Nat) :
     r.tokenize lower [] limit = .ok ([], false) := by
-  sorry
+  simp [Regex.tokenize]
 
 /-- … and only those: a regex that does not match "" never gets MatchesEmptyString -/
 theorem replace_not_nullable (r : Regex) (lower : Nat → Nat) (input repl : List Nat) (h : r.nullable = false) :
     r.replaceAll lower input repl ≠ .err .matchesEmptyString := by
-  sorry
+  intro hc
+  simp only [Regex.replaceAll, h, Bool.false_eq_true, if_false, replaceWith] at hc
+  exact absurd (replaceLoop_err _ _ _ _ _ _ _ _ _ _ _ hc) (by decide)
 
 theorem tokenize_not_nullable (r : Regex) (lower : Nat → Nat) (input : List Nat) (limit : Nat) (h : r.nullable = false) :
     r.tokenize lower input limit ≠ .err .matchesEmptyString := by
-  sorry
+  unfold Regex.tokenize
+  split
+  · simp
+  · simp only [h, Bool.false_eq_true, if_false]
+    exact tokenLoop_ne_err _ _ _ _ _ _ _
 
 theorem analyze_not_nullable (r : Regex) (lower : Nat → Nat) (input : List Nat) (limit : Nat)
     (h : r.nullable = false) :
     r.analyze lower input limit ≠ .err .matchesEmptyString := by
-  sorry
+  simp only [Regex.analyze, h, Bool.false_eq_true, if_false]
+  split
+  · simp
+  · exact analyzeLoop_ne_err _ _ (fun st t e => processMatch_ne_err _ st t e) _ _ _ _ _
 
 /-- in the language of a compiled tree, a zero-length member anywhere in any input gives a
     zero-length member on the empty input: "matches the empty string" and "can report a
     zero-length match" coincide -/
 theorem OpR_zero_anywhere (ctx : Ctx) (op : Op) (i : Nat) (h : OpR ctx op i i) :
-    OpR { ctx with input := [] } op 0 0 := by
-  sorry
+    OpR { ctx with input := [] } op 0 0 :=
+  OpR_zero ctx op i h
 
 end Rx.C16
